@@ -140,6 +140,9 @@ impl BiStream {
     }
 
     pub async fn finish(&mut self) -> Result<()> {
+        // Frames that were started but not flushed yet still sit in the framed writer's buffer;
+        // finishing the QUIC stream directly would bypass (and lose) them.
+        self.write.flush().await?;
         self.write.finish().await.map_err(QuicError::WriteError)?;
         Ok(())
     }
